@@ -223,9 +223,9 @@ func genCSRCase(rt *rapid.T) csrCase {
 	}
 	switch c.Kind {
 	case 0, 3:
-		c.KT = rapid.SampledFrom([]int{kSM2, kSM2, kP256, kP384, kEd25519, kRSA, kRSAPSS}).Draw(rt, "kt")
+		c.KT = rapid.SampledFrom([]int{kSM2, kSM2, kSM2, kP256, kP384, kEd25519, kRSA, kRSAPSS, kP224, kP521, kRSA1024, kRSA1024PSS}).Draw(rt, "kt")
 	default:
-		c.KT = rapid.SampledFrom([]int{kSM2, kSM2, kSM2, kRSA, kRSAPSS}).Draw(rt, "kt")
+		c.KT = rapid.SampledFrom([]int{kSM2, kSM2, kSM2, kRSA, kRSAPSS, kRSA1024, kRSA1024PSS}).Draw(rt, "kt")
 	}
 	if c.Kind == 0 {
 		c.DNS = subsetOf(rt, "dns", dnsNames, 3)
@@ -447,7 +447,7 @@ var crlTimeOffsets = []int64{0, -1, -86400, -30 * 86400, -20 * 365 * 86400, 3600
 func genCRLCase(rt *rapid.T) crlCase {
 	c := crlCase{
 		Seed:       rapid.Uint64().Draw(rt, "seed"),
-		KT:         rapid.SampledFrom([]int{kSM2, kSM2, kSM2, kP256, kP384, kEd25519, kRSA, kRSAPSS}).Draw(rt, "kt"),
+		KT:         rapid.SampledFrom([]int{kSM2, kSM2, kSM2, kSM2, kP256, kP384, kEd25519, kRSA, kRSAPSS, kP224, kP521, kRSA1024, kRSA1024PSS}).Draw(rt, "kt"),
 		AlgVariant: rapid.IntRange(0, 3).Draw(rt, "algvariant"),
 		IssuerKU:   rapid.SampledFrom([]int{96, 64, 511}).Draw(rt, "issuer-ku"),
 		ThisOff:    rapid.SampledFrom(crlTimeOffsets).Draw(rt, "this"),
